@@ -45,7 +45,7 @@ CCfgs ==
   CASE Mode = "C24" -> { BaseC, [BaseC EXCEPT !.max = 12],
                          [BaseC EXCEPT !.max = 11, !.suites = <<47, 49171>>, !.alpn = <<>>],
                          [BaseC EXCEPT !.min = 12, !.suites = <<49199, 156, 4865>>, !.tickets = FALSE] }
-    [] Mode = "C31" -> { [BaseC EXCEPT !.max = 12], BaseC }
+    [] Mode = "C31" -> { [BaseC EXCEPT !.max = 12, !.alpn = <<>>], [BaseC EXCEPT !.alpn = <<>>] }
     [] OTHER        -> { [BaseC EXCEPT !.max = 12, !.suites = <<49199, 47>>], BaseC }
 SCfgs ==
   CASE Mode = "C24" -> { BaseS, [BaseS EXCEPT !.max = 12, !.prefer = TRUE, !.suites = <<156, 49199, 47>>],
@@ -106,6 +106,7 @@ Init ==
   /\ c2s = <<>> /\ s2c = <<>> /\ trC = <<>> /\ trS = <<>>
   /\ sessC = Null /\ sessS = Null /\ cache = Null
   /\ now = 0 /\ auto \in (IF Mode = "C31" THEN BOOLEAN ELSE {FALSE})
+  /\ (auto /\ AdvBudget <= 1 => cfgC.max = 12)   \* small budgets: automatic rotation with the TLS 1.2 client only
   /\ keysS = (IF auto THEN AutoStep(<<>>, 0) ELSE <<TKey("t1", 0)>>)
   /\ issued = {} /\ presented = Null /\ decision = "none"
   /\ adv = AdvBudget /\ closed = FALSE
@@ -405,6 +406,7 @@ S_RecvClientFlight13 ==
 Terminal == cst \in {"done", "failed"} /\ sst \in {"done", "failed"}
 
 EnvClose ==
+  /\ Mode # "C31"          \* the ticket histories run three connections; transport closure is C32's subject
   /\ ~closed /\ ~Terminal /\ closed' = TRUE
   /\ UNCHANGED <<cfgC, cfgS, au, conn, cst, sst, c2s, s2c, trC, trS, sessC, sessS, cache, keysS,
                  issued, presented, decision, adv>>
@@ -481,6 +483,7 @@ A_Downgrade ==
 A_Alter ==
   \E dir \in BOOLEAN :
     LET q == IF dir THEN c2s ELSE s2c IN
+    /\ Mode # "C31"       \* C31's adversary is the ticket adversary (A_Ticket)
     /\ Attackable(q, dir)
     /\ \E i \in 1..Len(Head(q)) :
           /\ Head(q)[i].t # "FIN"      \* a Finished message has no bytes besides the MAC: see A_Corrupt
@@ -507,6 +510,7 @@ A_Insert ==
 \* ticket adversary between two connections: the client's cache presents other ticket bytes
 A_Ticket ==
   /\ Mode = "C31" /\ Between /\ adv > 0 /\ ~IsNull(cache) /\ adv' = adv - 1
+  /\ (auto => conn = 2)       \* automatic rotation: the forged / altered ticket is presented on the last connection
   /\ \/ cache' = [cache EXCEPT !.ticket.ok = FALSE]                                  \* Mutate / Truncate
      \/ \E f \in ForeignIds :     \* Foreign: sealed under a key of the adversary's choosing, with a secret of its choosing
            cache' = [cache EXCEPT !.ticket = Seal(TKey(f, 0), [cache.st EXCEPT !.ms = <<"other">>])]
